@@ -11,6 +11,7 @@ import (
 	"github.com/tableauio/tableau/load"
 	"github.com/tableauio/tableau/xerrors"
 	"google.golang.org/protobuf/proto"
+	"google.golang.org/protobuf/reflect/protoregistry"
 	"google.golang.org/protobuf/types/dynamicpb"
 )
 
@@ -28,15 +29,17 @@ type c19Case struct {
 	book      bookSpec   // primary
 	mergers   []bookSpec // merger sources (same sheet, other rows)
 	sheet     string
+	refer     bool     // a column of the sheet refers to a column of another workbook's sheet
+	referBook bookSpec // the referred workbook
 }
 
-func genC19Case(r *rand.Rand) c19Case {
-	c := c19Case{container: []string{"csv", "xlsx"}[r.Intn(2)], sheet: "HeroConf", location: []string{"", "Asia/Shanghai", "America/New_York"}[r.Intn(3)]}
+func genC19Case(r *rand.Rand, uniq string) c19Case {
+	c := c19Case{container: []string{"csv", "xlsx"}[r.Intn(2)], sheet: "HeroConf" + uniq, location: []string{"", "Asia/Shanghai", "America/New_York"}[r.Intn(3)]}
 	g := &sgen{r: r}
 	// a vertical-map sheet so that merger sources contribute disjoint keys
 	var gs genSheetOut
 	for {
-		gs = g.sheet("HeroConf", 1+r.Intn(4), 1+r.Intn(4))
+		gs = g.sheet(c.sheet, 1+r.Intn(4), 1+r.Intn(4))
 		if gs.vkind == "map" {
 			break
 		}
@@ -54,9 +57,9 @@ func genC19Case(r *rand.Rand) c19Case {
 	meta := map[string]string{}
 	if c.merger {
 		if c.container == "csv" {
-			meta["Merger"] = "Extra*.csv#HeroConf"
+			meta["Merger"] = "Extra*.csv#" + c.sheet
 		} else {
-			meta["Merger"] = "Extra*.xlsx#HeroConf"
+			meta["Merger"] = "Extra*.xlsx#" + c.sheet
 		}
 		for m := 1 + r.Intn(2); m > 0; m-- {
 			rows := [][]string{gs.spec.Rows[0], gs.spec.Rows[1], gs.spec.Rows[2]}
@@ -67,11 +70,31 @@ func genC19Case(r *rand.Rand) c19Case {
 				}
 				rows = append(rows, row)
 			}
-			c.mergers = append(c.mergers, bookSpec{Name: "Extra" + itoa(int64(m)), Sheets: []sheetSpec{{Name: "HeroConf", Rows: rows}}, NoMeta: true})
+			c.mergers = append(c.mergers, bookSpec{Name: "Extra" + itoa(int64(m)), Sheets: []sheetSpec{{Name: c.sheet, Rows: rows}}, NoMeta: true})
 		}
 	}
 	gs.spec.Meta = meta
-	c.book = bookSpec{Name: "Fuzz", Sheets: []sheetSpec{gs.spec}}
+	if r.Intn(3) == 0 && !c.merger {
+		// a refer column: its values must exist in a column of another workbook (found through the same rewrites)
+		c.refer = true
+		itemSheet := "ItemConf" + uniq
+		rows := gs.spec.Rows
+		rows[0] = append(rows[0], "ItemRef")
+		rows[1] = append(rows[1], `uint32|{refer:"`+itemSheet+`.ID"}`)
+		rows[2] = append(rows[2], "note")
+		for k := 3; k < len(rows); k++ {
+			for len(rows[k]) < len(rows[0])-1 {
+				rows[k] = append(rows[k], "")
+			}
+			rows[k] = append(rows[k], itoa(int64(1+r.Intn(5))))
+		}
+		irows := [][]string{{"ID", "Name"}, {"map<uint32, " + itemSheet + "Item>", "string"}, {"", ""}}
+		for id := 1; id <= 5; id++ {
+			irows = append(irows, []string{itoa(int64(id)), "item"})
+		}
+		c.referBook = bookSpec{Name: "Item" + uniq, Sheets: []sheetSpec{{Name: itemSheet, Rows: irows}}}
+	}
+	c.book = bookSpec{Name: "Fuzz" + uniq, Sheets: []sheetSpec{gs.spec}}
 	if r.Intn(6) == 0 {
 		c.corrupt = true
 		rows := c.book.Sheets[0].Rows
@@ -107,7 +130,7 @@ func runC19(c c19Case) string {
 			w.writeCSVBook(sub, b)
 		}
 	}
-	ro := runOpts{LocationName: c.location}
+	ro := runOpts{LocationName: c.location, Package: "pc" + strings.TrimPrefix(c.sheet, "HeroConf")}
 	if c.container == "xlsx" {
 		ro.Formats = []format.Format{format.Excel}
 	}
@@ -116,6 +139,9 @@ func runC19(c c19Case) string {
 	write(c.subdir, c.book)
 	for _, m := range c.mergers {
 		write(c.subdir, m)
+	}
+	if c.refer {
+		write(c.subdir, c.referBook)
 	}
 	if err := w.genProto(ro); err != nil {
 		return "same protoerr"
@@ -137,13 +163,22 @@ func runC19(c c19Case) string {
 		ro.SubdirRewrites = rewrites
 	}
 	confErr := w.genConf(ro)
+	if confErr != nil && os.Getenv("VERIF_DEBUG") != "" {
+		println("CONFERR", confErr.Error())
+	}
 	descs, err := parseProtoDir(w.Proto)
 	if err != nil {
 		return "same protoinvalid"
 	}
-	md := descs["protoconf."+c.sheet]
+	md := descs[ro.pkg()+"."+c.sheet]
 	if md == nil {
 		return "same nomessage"
+	}
+	if c.refer {
+		// load.Load resolves refer targets through protoregistry.GlobalFiles (names are unique per case)
+		if rm := descs[ro.pkg()+"."+c.referBook.Sheets[0].Name]; rm != nil {
+			_ = protoregistry.GlobalFiles.RegisterFile(rm.GetFile().UnwrapFile())
+		}
 	}
 	opts := []load.Option{}
 	if c.location != "" {
@@ -187,7 +222,7 @@ func init() {
 	})
 	regImpl("c19.origin", func(a []string) string {
 		r := rand.New(rand.NewSource(mustInt(a[0])))
-		c := genC19Case(r)
+		c := genC19Case(r, a[0])
 		res := runC19(c)
 		var tags []string
 		tags = append(tags, c.container)
@@ -206,6 +241,9 @@ func init() {
 		}
 		if c.corrupt {
 			tags = append(tags, "corrupt")
+		}
+		if c.refer {
+			tags = append(tags, "refer")
 		}
 		return res + " [" + strings.Join(tags, ",") + "]"
 	})
